@@ -583,6 +583,10 @@ func ruleSurfaceErrors(w *World, r *RuleResult) {
 								if c, ok := x.(*ssa.Call); ok && isWrapper(c) {
 									continue
 								}
+								// replacing the destination by the shared NaN (the failure path's clean-up) hides nothing
+								if c, ok := x.(*ssa.Call); ok && len(c.Common().Args) > 0 && w.nanWholeWrite(c, basePtr(c.Common().Args[0])) {
+									continue
+								}
 								problems = append(problems, "destination written at "+w.instrPos(x)+" after a wrapper call whose error has not been tested")
 							}
 						}
